@@ -9,7 +9,7 @@ from ..cfg import own_exprs
 from ..facts import Fact, atoms, enumerate_paths
 from ..report import Ctx
 from ..suspend import live_iterations, node_suspension
-from .common import always_before, enclosing_stmt, guard, need, node_of, stmts_matching
+from .common import NotTabulable, OrderEval, always_before, enclosing_stmt, guard, need, node_of, stmts_matching
 
 LSM = "happysimulator/components/storage/lsm_tree.py"
 MEMT = "happysimulator/components/storage/memtable.py"
@@ -375,7 +375,60 @@ def rule_bloom_dependency(ctx: Ctx) -> None:
     need(uses or any("bloom" in unparse(x).lower() for x in ast.walk(sg.node) if isinstance(x, ast.Compare)), "C14-1: SSTable.get no longer consults a Bloom filter (dependency clause is moot)")
 
 
+def rule_overlap_is_closed_intersection(ctx: Ctx) -> None:
+    """C14-2 (compaction picks every table that can hold an older version): `SSTable.overlaps` is decided by tabulation — the body is
+    evaluated on every pair of key lists (empty, one key, two keys; keys 0..3, sorted) and must agree with closed-interval intersection
+    `a.min <= b.max and b.min <= a.max` (both non-empty).  A strict comparison misses the table whose smallest key *is* the other's largest
+    key: a tombstone for that key is then merged without the table that still holds the value, dropped at the last level, and the deleted
+    key reads back."""
+    import itertools
+
+    fn = ctx.prog.func(SST, "SSTable.overlaps")
+    params = [p_ for p_ in fn.params() if p_ != "self"]
+    need(len(params) == 1, "C14-2: SSTable.overlaps takes one other table")
+    lists = [[]] + [[a] for a in range(4)] + [[a, b] for a in range(4) for b in range(a, 4)]
+    bad = None
+    n = 0
+    try:
+        for ka, kb in itertools.product(lists, repeat=2):
+            env = {"self": {"_keys": list(ka)}, params[0]: {"_keys": list(kb)}}
+            got = bool(OrderEval(env).run(fn.node))
+            want = bool(ka) and bool(kb) and ka[0] <= kb[-1] and kb[0] <= ka[-1]
+            n += 1
+            if got != want and bad is None:
+                bad = f"keys {ka} vs {kb}: returns {got}, intersection is {want}"
+    except NotTabulable as e:
+        bad = f"not tabulable: {e}"
+    ctx.ob("C14-2", "G3", fn, None, bad is None, f"SSTable.overlaps agrees with closed key-range intersection on all {n} pairs of small key lists" + ("" if bad is None else " — " + bad))
+
+
+def compaction_latch_rules(ctx: Ctx, rule: str) -> None:
+    """The single-flight latch of the asynchronous compaction is released only by the process that took it (C14-2; C15-3 as a dependency:
+    `crash()` must not release it either — the suspended compaction is resumed by the engine after the crash and would overlap a new one,
+    whose output it then overwrites with tables merged from pre-crash inputs)."""
+    prog = ctx.prog
+    n = 0
+    for fn in [f for f in prog.module(LSM).all_functions if f.cls is not None and f.cls.name == "LSMTree"]:
+        for st in walk_stmts(fn.node.body):
+            tg = st.targets if isinstance(st, ast.Assign) else [st.target] if isinstance(st, (ast.AnnAssign, ast.AugAssign)) else []
+            if not any(path_of(t) == "self._compaction_in_progress" for t in tg):
+                continue
+            n += 1
+            v = getattr(st, "value", None)
+            if fn.name == "__init__":
+                ok = isinstance(v, ast.Constant) and v.value is False
+            elif isinstance(v, ast.Constant) and v.value is True:
+                ok = fn.name == "_compact"
+            else:
+                # released: only in the `finally` of the try that runs the compaction, in the function that took the latch
+                ok = fn.name == "_compact" and any(isinstance(t_, ast.Try) and any(x is st for x in t_.finalbody) for t_ in walk_stmts(fn.node.body))
+            ctx.ob(rule, "G6", fn, st, ok, f"{fn.qual}: `{norm_stmt(st)}` — the compaction latch is taken and released only by `_compact` (release in its `finally`); nobody else may clear it while that process is suspended")
+    need(n >= 3, f"{rule}: expected the three latch writes (init, take, release), found {n}")
+
+
 def run(ctx: Ctx) -> None:
+    ctx.guarded(lambda c_: compaction_latch_rules(c_, "C14-2"))
+    ctx.guarded(rule_overlap_is_closed_intersection)
     ctx.guarded(rule_bloom_dependency)
     ctx.guarded(rule_memtable_apply)
     ctx.guarded(rule_read_paths)
@@ -386,6 +439,7 @@ def run(ctx: Ctx) -> None:
 
 
 MUTANTS = [
+    ("sstable-overlap-strict-at-the-shared-key", SST, "        return self._keys[0] <= other._keys[-1] and other._keys[0] <= self._keys[-1]", "        return self._keys[0] < other._keys[-1] and other._keys[0] <= self._keys[-1]", "C14-2"),
     ("same-level-compaction-appends", LSM, "                self._levels[target_level].insert(0, new_sst)\n", "                self._levels[target_level].append(new_sst)\n", "C14-2"),
     ("lsm-get-none-falls-through", LSM, "        if value is not None or self._memtable.contains(key):\n            self._total_read_hits += 1\n            if value is _TOMBSTONE:\n                return None\n            return value\n\n        # Check immutable memtables\n        for imm in reversed(self._immutable_memtables):\n            value = imm.get_sync(key)\n            if value is not None or imm.contains(key):\n                self._total_read_hits += 1\n                if value is _TOMBSTONE:\n                    return None\n                return value\n\n        # Check each level, L0 first (most recent). Iterate", "        if value is not None:\n            self._total_read_hits += 1\n            if value is _TOMBSTONE:\n                return None\n            return value\n\n        # Check immutable memtables\n        for imm in reversed(self._immutable_memtables):\n            value = imm.get_sync(key)\n            if value is not None or imm.contains(key):\n                self._total_read_hits += 1\n                if value is _TOMBSTONE:\n                    return None\n                return value\n\n        # Check each level, L0 first (most recent). Iterate", "C14-1"),
     ("compaction-resorts-selection-by-sequence", LSM, "        # Merge all selected SSTables\n        # Process from oldest to newest so newer values win\n", "        # Merge all selected SSTables\n        sstables = sorted(sstables, key=lambda sst: sst.sequence)\n", "C14-2"),
@@ -419,5 +473,6 @@ MUTANTS = [
     ("commit-before-image-after-write", TXN, "            before_images[key] = self._manager._store.get_sync(key)\n            self._manager._store.put_sync(key, value)", "            self._manager._store.put_sync(key, value)\n            before_images[key] = self._manager._store.get_sync(key)", "C14-6"),
 ]
 REFACTORS = [
+    ("sstable-overlap-as-not-disjoint", SST, "        return self._keys[0] <= other._keys[-1] and other._keys[0] <= self._keys[-1]", "        if self._keys[-1] < other._keys[0]:\n            return False\n        return not other._keys[-1] < self._keys[0]"),
     ("get-snapshot-via-tuple", LSM, "        for level in [list(level) for level in self._levels]:\n            # L0: check all SSTables", "        for level in tuple(tuple(level) for level in self._levels):\n            # L0: check all SSTables"),
 ]
